@@ -133,6 +133,10 @@ pub struct World {
     pub dumped: bool,
     /// the durable state was written by hand (`g`/`gn`), not by the index's own flushes
     pub explicit: bool,
+    /// a `flushl` (older API: store_dirty_nodes → store_ids → store_metadata_with) had mutations in its window: that API
+    /// gives no "ids object ⊆ blobs" guarantee (a removal between store_ids and store_metadata_with leaves the ids object stale
+    /// while the watermark says saved), so the order theorem's oracle does not apply from then on
+    pub legacy_window: bool,
 }
 
 pub fn flush_record(rt: &Runtime, index: &HnswIndex, now: u64) -> Result<Vec<W>, String> {
@@ -260,6 +264,7 @@ impl World {
             graph: None,
             dumped: false,
             explicit: false,
+            legacy_window: false,
         };
         // as `anda_db::index::Hnsw::new`: the empty index is flushed at creation
         w.flush_complete(rt)?;
@@ -281,6 +286,7 @@ impl World {
             graph: None,
             dumped: false,
             explicit: true,
+            legacy_window: false,
         }
     }
 
@@ -919,6 +925,9 @@ fn window_op(cx: &mut Ctx, w: &mut World, t: &[&str]) {
     if run.flushed {
         w.touched.clear();
     }
+    if legacy && !mutated.is_empty() {
+        w.legacy_window = true;
+    }
     w.touched.extend(mutated);
     if model_on {
         let imp = real_state(w, cx.rt, !w.cfg.reconnect);
@@ -1048,7 +1057,7 @@ pub(crate) fn check_loaded(cx: &mut Ctx, w: &mut World, d: &Durable) {
     if cx.report {
         cx.rep.hit(if missing.is_empty() { "load:complete" } else { "load:missing-blobs" });
     }
-    if !w.explicit && !missing.is_empty() {
+    if !w.explicit && !w.legacy_window && !missing.is_empty() {
         // load_prefix_hnsw: with the order nodes -> ids -> metadata -> purge no cut of the index's own flushes
         // leaves the ids object naming an id without a blob
         cx.oracle_fail("flush-left-missing-blob", "an interrupted flush left an id in the ids object without its node blob", "no missing blob", &format!("{missing:?}"), None);
